@@ -133,4 +133,115 @@ theorem clonePorts_names (src : List Entry) : ∀ (list : List Bytes) (res : Lis
       simp [hfind n p hp, ih r hr]
     · cases h
 
+/-! ### exact characterisation of the two constructors (second review) -/
+
+/-- what `MergePorts` is documented to do, said without its loops: go through the ports of all the merged
+    tables in order and keep a port iff no port with its name was met before (`seen`: the names met so far) -/
+def keepNew (seen : List Bytes) : List Entry → List Entry
+  | [] => []
+  | e :: r => if e.name ∈ seen then keepNew seen r else e :: keepNew (seen ++ [e.name]) r
+
+theorem mergeOne_eq (acc ps : List Entry) :
+    mergeOne acc ps = acc ++ keepNew (acc.map Entry.name) ps := by
+  induction ps generalizing acc with
+  | nil => simp [mergeOne, keepNew]
+  | cons p r ih =>
+    simp only [mergeOne, keepNew]
+    by_cases h : acc.any (fun pp => pp.name = p.name) = true
+    · have hm : p.name ∈ acc.map Entry.name := by
+        obtain ⟨q, hq, hqn⟩ := List.any_eq_true.mp h
+        exact List.mem_map.mpr ⟨q, hq, by simpa using hqn⟩
+      simp only [h, ↓reduceIte, hm, ih]
+    · have hm : ¬ p.name ∈ acc.map Entry.name := by
+        intro hm
+        obtain ⟨q, hq, hqn⟩ := List.mem_map.mp hm
+        exact h (List.any_eq_true.mpr ⟨q, hq, by simp [hqn]⟩)
+      simp only [h, hm, ↓reduceIte, ih, List.map_append, List.map_cons, List.map_nil, List.append_assoc,
+        List.cons_append, List.nil_append, Bool.false_eq_true]
+
+theorem keepNew_append (seen : List Bytes) (a b : List Entry) :
+    keepNew seen (a ++ b) = keepNew seen a ++ keepNew (seen ++ (keepNew seen a).map Entry.name) b := by
+  induction a generalizing seen with
+  | nil => simp [keepNew]
+  | cons e r ih =>
+    simp only [List.cons_append, keepNew]
+    by_cases h : e.name ∈ seen
+    · simp only [h, ↓reduceIte, ih]
+    · simp only [h, ↓reduceIte, ih, List.cons_append, List.map_cons, List.append_assoc, List.nil_append]
+
+theorem foldl_mergeOne_eq (parts : List (List Entry)) (acc : List Entry) :
+    parts.foldl mergeOne acc = acc ++ keepNew (acc.map Entry.name) parts.flatten := by
+  induction parts generalizing acc with
+  | nil => simp [keepNew]
+  | cons p r ih =>
+    simp only [List.foldl_cons, ih, mergeOne_eq, List.flatten_cons, keepNew_append, List.map_append,
+      List.append_assoc]
+
+/-- **mergePorts_eq_keepNew**: the table `MergePorts` builds is exactly: all ports of all merged tables, in
+    order, without those whose name was met before -/
+theorem mergePorts_eq_keepNew (parts : List (List Entry)) : mergePorts parts = keepNew [] parts.flatten := by
+  simp [mergePorts, foldl_mergeOne_eq]
+
+theorem keepNew_find (seen : List Bytes) (l : List Entry) (n : Bytes) :
+    (keepNew seen l).find? (fun e => e.name = n) =
+      if n ∈ seen then none else l.find? (fun e => e.name = n) := by
+  induction l generalizing seen with
+  | nil => simp [keepNew]
+  | cons e r ih =>
+    simp only [keepNew]
+    by_cases h : e.name ∈ seen
+    · simp only [h, ↓reduceIte, ih]
+      by_cases hn : n ∈ seen
+      · simp [hn]
+      · have : e.name ≠ n := fun he => hn (he ▸ h)
+        simp [hn, this]
+    · simp only [h, ↓reduceIte, List.find?_cons]
+      by_cases hen : e.name = n
+      · have : ¬ n ∈ seen := hen ▸ h
+        simp [hen, this]
+      · have hmem : (n ∈ seen ++ [e.name]) ↔ n ∈ seen := by
+          simp [List.mem_append, Ne.symm hen]
+        simp only [hen, decide_false, ih, hmem]
+
+theorem keepNew_sublist (seen : List Bytes) (l : List Entry) : (keepNew seen l).Sublist l := by
+  induction l generalizing seen with
+  | nil => simp [keepNew]
+  | cons e r ih =>
+    simp only [keepNew]
+    split
+    · exact (ih _).cons _
+    · exact (ih _).cons_cons _
+
+/-- the last port of the source with the given name: `findClone`'s loop has no `break` -/
+theorem findClone_eq (src : List Entry) (n : Bytes) :
+    findClone src n = src.reverse.find? (fun p => p.name = n) := by
+  unfold findClone
+  suffices ∀ acc : Option Entry, src.foldl (fun acc p => if p.name = n then some p else acc) acc =
+      (src.reverse.find? (fun p => p.name = n)).or acc from by simpa using this none
+  induction src with
+  | nil => intro acc; simp
+  | cons a r ih =>
+    intro acc
+    simp only [List.foldl_cons, ih, List.reverse_cons, List.find?_append]
+    by_cases h : a.name = n
+    · simp [h]
+    · simp [h]
+
+theorem clonePorts_get (src : List Entry) : ∀ (list : List Bytes) (res : List Entry),
+    clonePorts src list = some res → ∀ i : Nat,
+      res[i]? = (list[i]?).bind (fun n => src.reverse.find? (fun p => p.name = n)) := by
+  intro list
+  induction list with
+  | nil => intro res h i; simp [clonePorts] at h; subst h; simp
+  | cons n ns ih =>
+    intro res h i
+    simp only [clonePorts] at h
+    split at h
+    · next p r hp hr =>
+      cases h
+      cases i with
+      | zero => simp [← findClone_eq, hp]
+      | succ j => simpa using ih r hr j
+    · cases h
+
 end Rtosc.Ports
